@@ -11,7 +11,7 @@ SPECIFICATION Spec
 CHECK_DEADLOCK FALSE
 """
 INV = "INVARIANTS Conservation HonestPayout PayoutAtLeastNewest HonestNotRobbed"
-SCFG = """CONSTANTS P0 = %(p0)d MaxP = %(mp)d MaxS = %(ms)d CD = %(cd)d Adversary = %(adv)s Hon = "%(hon)s" Deposit = 100
+SCFG = """CONSTANTS P0 = %(p0)d MaxP = %(mp)d MaxS = %(ms)d CD = %(cd)d Adversary = %(adv)s Hon = "%(hon)s" Ballast = %(bal)s Deposit = 100
 SPECIFICATION Spec
 %(inv)s
 CHECK_DEADLOCK FALSE
@@ -27,11 +27,18 @@ def sub_runs(prop, tier, seed, scratch, binary, tl, dr, design_cex):
     else:
         base, stride = (dict(p0=2, mp=4, ms=2, cd=1) if adv else dict(p0=3, mp=4, ms=2, cd=2)), 1
     shards = vlib.NCPU
-    for hon in (["A", "B"] if adv else ["A"]):
-        c = dict(base, adv="TRUE" if adv else "FALSE", hon=hon)
-        r1 = vlib.tlc(scratch, "SubSettle", SCFG % dict(c, inv=SINV), name="SubSettleMC_%s%s" % (prop, hon), workers=4, timeout=3000)
+    # variants: (honest party, ballast sub-channel). Adversary mode: either party honest, the second one with the ballast
+    # sub-channel (S is then the second locked sub-allocation); honest mode: with and without ballast.
+    variants = [("A", False), ("B", True)] if adv else [("A", False), ("A", True)]
+    if tier != "quick" and adv:
+        variants = [("A", False), ("B", True), ("A", True), ("B", False)]
+    if tier == "quick" and not adv:
+        stride = 2 * stride
+    for hon, ballast in variants:
+        c = dict(base, adv="TRUE" if adv else "FALSE", hon=hon, bal="TRUE" if ballast else "FALSE")
+        r1 = vlib.tlc(scratch, "SubSettle", SCFG % dict(c, inv=SINV), name="SubSettleMC_%s%s%d" % (prop, hon, ballast), workers=4, timeout=3000)
         design_cex.append(r1["violated"] or "none")
-        r = vlib.tlc(scratch, "SubSettle", SCFG % dict(c, inv=""), name="SubSettle_%s%s" % (prop, hon), workers=1,
+        r = vlib.tlc(scratch, "SubSettle", SCFG % dict(c, inv=""), name="SubSettle_%s%s%d" % (prop, hon, ballast), workers=1,
                      extra=["-dump", "dot,actionlabels", "graph.dot"], timeout=3000)
         if not r["ok"]:
             raise vlib.Inconclusive("TLC failed on SubSettle.tla: %s" % r["violated"])
@@ -39,24 +46,24 @@ def sub_runs(prop, tier, seed, scratch, binary, tl, dr, design_cex):
         r["out"] = ""
         tl.append(r)
         env = dict(VERIF_DOT=dot, VERIF_P0=c["p0"], VERIF_CD=c["cd"], VERIF_ADVERSARY="1" if adv else "0", VERIF_HON=hon,
-                   VERIF_SHARDS=shards, VERIF_SEED=seed, VERIF_STRIDE=stride)
+                   VERIF_BALLAST="1" if ballast else "0", VERIF_SHARDS=shards, VERIF_SEED=seed, VERIF_STRIDE=stride)
         with cf.ThreadPoolExecutor(max_workers=shards) as ex:
             ds = list(ex.map(lambda k: vlib.run_driver(binary, "TestSubSettle", dict(env, VERIF_SHARD=k), scratch,
-                                                       "subsettle%s_%d" % (hon, k), timeout=12000), range(shards)))
+                                                       "subsettle%s%d_%d" % (hon, ballast, k), timeout=12000), range(shards)))
         os.remove(dot)
         # seeded random behaviours of the same graph (TLC simulation)
         import shutil
-        simdir = os.path.join(scratch, "subsim%s" % hon)
+        simdir = os.path.join(scratch, "subsim%s%d" % (hon, ballast))
         os.makedirs(os.path.join(simdir, "b"))
         nsim = 400 if tier == "quick" else 6000
-        rs = vlib.tlc(scratch, "SubSettle", SCFG % dict(c, inv=""), name="SubSettleSim_%s%s" % (prop, hon), workers=1,
+        rs = vlib.tlc(scratch, "SubSettle", SCFG % dict(c, inv=""), name="SubSettleSim_%s%s%d" % (prop, hon, ballast), workers=1,
                       simulate="file=%s/b/t,num=%d" % (simdir, nsim), extra=["-depth", "16", "-seed", str(seed)], timeout=3000)
         rs["out"] = ""
         senv = dict(env, VERIF_SIM_DIR=os.path.join(simdir, "b"), VERIF_STRIDE=1)
         del senv["VERIF_DOT"]
         with cf.ThreadPoolExecutor(max_workers=shards) as ex:
             ds += list(ex.map(lambda k: vlib.run_driver(binary, "TestSubSettle", dict(senv, VERIF_SHARD=k), scratch,
-                                                        "subsettlesim%s_%d" % (hon, k), timeout=12000), range(shards)))
+                                                        "subsettlesim%s%d_%d" % (hon, ballast, k), timeout=12000), range(shards)))
         shutil.rmtree(simdir)
         for d in ds:
             d["counts"]["sub_behaviours"] = d["counts"].get("behaviours", 0)
@@ -141,7 +148,9 @@ def run(prop, tier, seed, scratch, t0):
         rule=rule + ". SubSettle.tla adds the same for a ledger channel with a sub-channel: payments in both channels, a "
              "sub-channel update held at the responder's handler and a settlement attempt that times out meanwhile, finalising "
              "the sub-channel (by either party) and withdrawing it into the parent, settlement of the parent with the "
-             "sub-channel still open (registration of both, both challenge periods)" +
+             "sub-channel still open (registration of both, both challenge periods); variant with a second, idle sub-channel "
+             "opened first (the sub-channel under test is then the second locked sub-allocation, every registration carries two "
+             "sub-channel states)" +
              (", the adversary registering every earlier (parent, sub-channel) pair of states it holds, either party honest"
               if adv else "") +
              "; quick: every 3rd edge of that graph (offset by seed), thorough: every edge; distinct_nontrivial = distinct graph "
